@@ -267,6 +267,21 @@ def build_forms(D, which):
     elif which == 'scalars_int_vs_float':
         mk = lambda f: eao.assets.Contract(name='a', nodes=nA, price='p', min_cap=-2 if f else -2.0, max_cap=3 if f else 3.0, extra_costs=1 if f else 1.0,
                                            max_take={'start': [dtm(naive[0])], 'end': [dtm(naive[3])], 'values': [4 if f else 4.0]}, wacc=0 if f else 0.0)
+    elif which in ('chp_heat_start_profile_only', 'chp_heat_shutdown_profile_only'):
+        # heat bounds during the start / the shutdown ramp are two separate optional arguments: one omitted = given with the bounds that hold anyway
+        # (0 <= heat <= max_cap / conversion factor), the other one in force (owned by C06)
+        nH = shapes.nodes('H')[0]
+        base_ = dict(name='a', nodes=[nA, nH], price='p', min_cap=1., max_cap=3., conversion_factor_power_heat=0.5, max_share_heat=1.0, start_costs=v('sc', lo=0),
+                     start_ramp_lower_bounds=[1.0, 2.0], start_ramp_upper_bounds=[1.5, 2.5], shutdown_ramp_lower_bounds=[1.0], shutdown_ramp_upper_bounds=[2.0],
+                     time_already_off=1)
+        sh = dict(start_ramp_lower_bounds_heat=[0.25, 0.5], start_ramp_upper_bounds_heat=[0.5, 1.0])
+        sd = dict(shutdown_ramp_lower_bounds_heat=[0.25], shutdown_ramp_upper_bounds_heat=[0.75])
+        triv_sh = dict(start_ramp_lower_bounds_heat=[0., 0.], start_ramp_upper_bounds_heat=[6., 6.])
+        triv_sd = dict(shutdown_ramp_lower_bounds_heat=[0.], shutdown_ramp_upper_bounds_heat=[6.])
+        if which == 'chp_heat_start_profile_only':
+            mk = lambda f: eao.assets.CHPAsset(**dict(base_, **sh, **({} if f else triv_sd)))
+        else:
+            mk = lambda f: eao.assets.CHPAsset(**dict(base_, **sd, **({} if f else triv_sh)))
     elif which == 'defaults_multicommodity':
         base_ = dict(name='a', nodes=[nA, nB], price='p', min_cap=v('lo', hi=0), max_cap=v('hi', lo=0), factors_commodities=[1.0, 0.5])
         mk = lambda f: eao.assets.MultiCommodityContract(**dict(base_, **(dict(start=None, end=None, wacc=0., extra_costs=0., min_take=None, max_take=None, freq=None, profile=None,
